@@ -480,6 +480,41 @@ theorem normal_ordered_idempotent_tol (D : Nat) (hD : 0 < D) (tol : Rat) (h0 : 0
   exact (canonicity_fermion _ _ va' va0).1
     (fun s out => melF_congr _ _ wa' wa0 ea out s) t
 
+/-- idempotence, bosons (tolerance 0, ALL inputs with action codes 0 / 1). -/
+theorem normal_ordered_idempotent_boson (a : Op) (va : ∀ e ∈ a, ∀ f ∈ e.1, f.2 < 2) :
+    ∀ t, Dict.getD (normalOrdered 0 .boson (normalOrdered 0 .boson a)) t 0 =
+      Dict.getD (normalOrdered 0 .boson a) t 0 :=
+  (canonicity_boson _ a (normalOrdered_valid_sorted 0 .boson (Or.inl rfl) a va) va).1
+    (fun s out hs ho => normal_ordered_sound_boson_spec a va s out hs ho)
+
+/-- idempotence, quadratures (tolerance 0, every `ħ ≠ 0`, ALL inputs with action codes 0 / 1). -/
+theorem normal_ordered_idempotent_quad (hbar : GQ) (hh : hbar ≠ 0) (a : Op)
+    (va : ∀ e ∈ a, ∀ f ∈ e.1, f.2 < 2) :
+    ∀ t, Dict.getD (normalOrdered 0 (.quad hbar) (normalOrdered 0 (.quad hbar) a)) t 0 =
+      Dict.getD (normalOrdered 0 (.quad hbar) a) t 0 :=
+  (canonicity_quad hbar hh _ a (normalOrdered_valid_sorted 0 (.quad hbar) (Or.inr rfl) a va) va).1
+    (fun s out hs ho => quad_sound_hbar_spec hbar a s out hs ho)
+
+/-- idempotence of the executed function, bosons (lattice inputs, the tolerance the code uses). -/
+theorem normal_ordered_idempotent_boson_tol (D : Nat) (hD : 0 < D) (tol : Rat) (h0 : 0 ≤ tol) (h1 : tol * D ≤ 1)
+    (a : Op) (va : ∀ e ∈ a, ∀ f ∈ e.1, f.2 < 2) (la : ∀ e ∈ a, Lat D e.2) :
+    ∀ t, Dict.getD (normalOrdered tol .boson (normalOrdered tol .boson a)) t 0 =
+      Dict.getD (normalOrdered tol .boson a) t 0 :=
+  (canonicity_boson_tol D hD tol h0 h1 _ a (normalOrdered_valid_sorted tol .boson (Or.inl rfl) a va) va
+    (normal_ordered_lattice_closed D hD tol h0 h1 .boson trivial a la) la).1
+    (fun s out hs ho => normal_ordered_sound_boson_spec_tol D hD tol h0 h1 a va la s out hs ho)
+
+/-- idempotence of the executed function, quadratures with Gaussian-integer `ħ ≠ 0`. -/
+theorem normal_ordered_idempotent_quad_tol (D : Nat) (hD : 0 < D) (tol : Rat) (h0 : 0 ≤ tol) (h1 : tol * D ≤ 1)
+    (hbar : GQ) (hh : hbar ≠ 0) (hk : LatticeKind (.quad hbar))
+    (a : Op) (va : ∀ e ∈ a, ∀ f ∈ e.1, f.2 < 2) (la : ∀ e ∈ a, Lat D e.2) :
+    ∀ t, Dict.getD (normalOrdered tol (.quad hbar) (normalOrdered tol (.quad hbar) a)) t 0 =
+      Dict.getD (normalOrdered tol (.quad hbar) a) t 0 :=
+  (canonicity_quad_tol D hD tol h0 h1 hbar hh hk _ a
+    (normalOrdered_valid_sorted tol (.quad hbar) (Or.inr rfl) a va) va
+    (normal_ordered_lattice_closed D hD tol h0 h1 (.quad hbar) hk a la) la).1
+    (fun s out hs ho => quad_sound_hbar_spec_tol D hD tol h0 h1 hbar hk a la s out hs ho)
+
 -- non-vacuity: the extracted EQ_TOLERANCE admits the dyadic lattice 2^-26
 example : (0 : Rat) ≤ Generated.eqTolerance ∧ Generated.eqTolerance * ((2 ^ 26 : Nat) : Rat) ≤ 1 := by
   constructor <;> norm_num [Generated.eqTolerance]
